@@ -29,7 +29,13 @@
                        released buffer stays in the model's table, flagged `brel`, and Read / Wake / Cancel
                        keep working on it (a reader task left running after the `async with` block, a
                        recv_message() after the block, a handler-spawned reader) -- "read after release".
-     Close             connection.is_closing() becomes true (transport closing / Connection.close())
+     Close             connection.is_closing() becomes true (transport closing / Connection.close()).
+                       NOTE: after Connection.close() a Read that pops an item still reaches
+                       acknowledge_received_data, but Connection.flush() then touches the deleted `_transport`
+                       if h2 has bytes pending and the read dies with AttributeError.  Whether it does depends
+                       on h2's outbound queue (not modelled); the model lets the read go on.  The ledger
+                       theorems hold either way; what a read pops is claimed for live connections only, and
+                       the driver issues no reads on a closed connection.
      Pause / Resume    transport.pause_writing() / resume_writing(): Connection.write_ready is cleared / set.
                        NO credit path consults write_ready (Connection.ack acknowledges and flushes at once),
                        so both are identity steps; they are in the alphabet so that the theorems quantify
